@@ -15,7 +15,9 @@ SHARDS = {"quick": 8, "thorough": 16}
 BUDGET = {"quick": 300, "thorough": 1800}
 RULE = ("irregular series of 2..200 observations with integer-second stamps, gaps "
         "from {0, 1, 7, 60, 600, 1800, 3600, 5000, 9000, days}, stamps exactly on "
-        "period boundaries, first stamp anywhere in its hour, values >= 0 / negative "
+        "period boundaries, first stamp anywhere in its hour, series starting in 1890, 1901, 1969, "
+        "2000-2001, 2038, 2100 and 2250 (epoch seconds below -2^31, across 0, above "
+        "2^31), values >= 0 / negative "
         "/ NaN on the k/4 lattice, period 1800 / 3600 s, rainfall flag, maxgapsec "
         "in {3600, 7200, 5 days}; each series replayed with DatetimeIndex units "
         "s / ms / us / ns x {naive, UTC, +10:00}. Non-trivial: a series producing "
@@ -32,7 +34,8 @@ OBLIGATIONS = {"period:valid": 300, "period:missing": 100, "period:gap-missing":
                "period:negative-missing": 20, "period:nan-missing": 20,
                "stamp-on-boundary": 50, "duplicate-stamps": 20, "rainfall": 50,
                "P=1800": 50, "P=3600": 50, "unit:s": 20, "unit:ms": 20, "unit:us": 20,
-               "unit:ns": 20, "tz:utc": 20, "tz:+10": 20}
+               "unit:ns": 20, "tz:utc": 20, "tz:+10": 20, "era:outside-int32-seconds": 20,
+               "era:across-epoch": 3}
 
 T0 = 946684800      # 2000-01-01 00:00:00 UTC
 
@@ -43,7 +46,13 @@ def gen_series(rng, it, tier):
     w = np.array([1, 2, 2, 6, 8, 8, 8, 4, 3, 1, 0.5])
     gaps = rng.choice(gaps_pool, size=n - 1, p=w / w.sum())
     first = int(rng.integers(0, 3600)) if it % 3 else [0, 1800, 3599, 1][it % 4]
-    t = T0 + int(rng.integers(0, 400)) * 86400 + int(rng.integers(0, 24)) * 3600 + first
+    # eras: most series around 2000; others before / across -2^31 s (Dec 1901), across
+    # the epoch, across 2^31 s (Jan 2038) and far beyond
+    era = [T0, T0, T0, -2 ** 31 - 40 * 86400, -2 ** 31 - 7200, -3 * 3600, 2 ** 31 - 7200,
+           2 ** 31 + 30 * 86400, 4102444800, 8836000000, -2524521600][it % 11]
+    era = (era // 3600) * 3600
+    t = era + (int(rng.integers(0, 400)) * 86400 if era == T0 else 0) + \
+        int(rng.integers(0, 24 if era == T0 else 2)) * 3600 + first
     stamps = np.concatenate([[t], t + np.cumsum(gaps)]).astype(np.int64)
     if it % 5 == 0:
         # snap some stamps onto period boundaries
@@ -148,6 +157,10 @@ def run_case(ctx, case):
     ctx.tag(f"P={P}")
     if rainfall:
         ctx.tag("rainfall")
+    if stamps[-1] > 2 ** 31 or stamps[0] < -2 ** 31:
+        ctx.tag("era:outside-int32-seconds")
+    if stamps[0] < 0 <= stamps[-1]:
+        ctx.tag("era:across-epoch")
     if np.any(np.diff(stamps) == 0):
         ctx.tag("duplicate-stamps")
     if np.any(stamps % P == 0):
